@@ -326,3 +326,170 @@ Proof.
   unfold fuel_for. rewrite Zdiv_0_l. simpl.
   destruct (clk 1%nat - clk 0%nat <=? 0) eqn:E; [apply Z.leb_le in E; lia|]. simpl. reflexivity.
 Qed.
+
+(* ------------------------------------------------------------------ the sequential branch as a state machine *)
+Section SequentialProofs.
+  Context {A : Type}.
+  Variables (clk : nat -> Z) (T : Z).
+
+  (* what the repaired loop has done when it is left: it appended the first k paths, every reading up
+     to k was inside the deadline, and either the generators were exhausted (k = all of them) or
+     reading k+1 -- made when path k+1 had been yielded -- was beyond the deadline *)
+  Definition seq_post (n : nat) (acc rest : list A) (o : @seq_outcome A) : Prop :=
+    exists k, (k <= length rest)%nat /\
+      s_result o = acc ++ firstn k rest /\
+      s_exit o = S (n + k) /\
+      (forall j, (1 <= j <= k)%nat -> late clk T (n + j) = false) /\
+      ((k = length rest /\ s_how o = SeqExhausted /\ s_flag o = false) \/
+       ((k < length rest)%nat /\ s_how o = SeqCut /\ s_flag o = true /\ late clk T (S (n + k)) = true)).
+
+  Lemma seq_iter_spec : forall rest acc n fuel, (length rest < fuel)%nat ->
+    seq_post n acc rest (seq_iter SeqDeadlinePerPath fuel clk T (mkst n acc rest)).
+  Proof.
+    induction rest as [|p r IH]; intros acc n fuel Hf; (destruct fuel as [|f]; [simpl in Hf; lia|]).
+    - simpl. exists 0%nat. simpl. rewrite app_nil_r, Nat.add_0_r.
+      split; [lia|]. split; [reflexivity|]. split; [reflexivity|]. split; [intros; lia|]. left. auto.
+    - cbn [seq_iter]. unfold seq_step. cbn [st_rest st_n st_acc]. destruct (late clk T (S n)) eqn:L.
+      + exists 0%nat. simpl. rewrite app_nil_r, Nat.add_0_r.
+        split; [lia|]. split; [reflexivity|]. split; [reflexivity|]. split; [intros; lia|]. right.
+        repeat split; auto. lia.
+      + simpl in Hf. destruct (IH (acc ++ [p]) (S n) f ltac:(lia)) as (k & Hk & Hr & He & Hl & Hc).
+        exists (S k). simpl. split; [lia|]. split; [rewrite Hr, <- app_assoc; reflexivity|].
+        split; [rewrite He; f_equal; lia|]. split.
+        * intros j Hj. destruct (Nat.eq_dec j 1) as [->|N]; [rewrite Nat.add_1_r; exact L|].
+          replace (n + j)%nat with (S n + (j - 1))%nat by lia. apply Hl. lia.
+        * destruct Hc as [(E & H1 & H2)|(E & H1 & H2 & H3)]; [left|right].
+          -- repeat split; auto.
+          -- repeat split; auto; [lia|]. replace (n + S k)%nat with (S n + k)%nat by lia. exact H3.
+  Qed.
+
+  (* the shipped loop: everything is appended, no reading matters *)
+  Lemma seq_iter_shipped : forall rest acc n fuel, (length rest < fuel)%nat ->
+    seq_iter SeqIgnoresTimeout fuel clk T (mkst n acc rest) =
+    @mkseq A SeqExhausted (S (n + length rest)) false (acc ++ rest).
+  Proof.
+    induction rest as [|p r IH]; intros acc n fuel Hf; (destruct fuel as [|f]; [simpl in Hf; lia|]).
+    - simpl. rewrite app_nil_r, Nat.add_0_r. reflexivity.
+    - simpl in *. rewrite IH by lia. rewrite <- app_assoc. simpl. do 2 f_equal. lia.
+  Qed.
+
+  Lemma run_sequential_spec (all : list A) :
+    seq_post 0 [] all (run_sequential SeqDeadlinePerPath clk T all).
+  Proof. unfold run_sequential. apply seq_iter_spec. lia. Qed.
+
+  Lemma firstn_prefix (k : nat) (l : list A) : exists rest, l = firstn k l ++ rest.
+  Proof. exists (skipn k l). symmetry. apply firstn_skipn. Qed.
+
+  Lemma firstn_short_neq (k : nat) (l : list A) : (k < length l)%nat -> firstn k l <> l.
+  Proof.
+    intros H E. assert (length (firstn k l) = length l) by (rewrite E; reflexivity).
+    rewrite firstn_length in H0. lia.
+  Qed.
+
+  (* never out of fuel, under either rule *)
+  Lemma seq_terminates_lemma rule (all : list A) : s_how (run_sequential rule clk T all) <> SeqOutOfFuel.
+  Proof.
+    destruct rule.
+    - unfold run_sequential. rewrite seq_iter_shipped by lia. simpl. discriminate.
+    - destruct (run_sequential_spec all) as (k & _ & _ & _ & _ & [(_ & H & _)|(_ & H & _)]); rewrite H; discriminate.
+  Qed.
+
+  (* the result is a prefix of the full enumeration, under either rule *)
+  Lemma seq_prefix_lemma rule (all : list A) :
+    exists rest, all = s_result (run_sequential rule clk T all) ++ rest.
+  Proof.
+    destruct rule.
+    - unfold run_sequential. rewrite seq_iter_shipped by lia. simpl. exists []. rewrite app_nil_r. reflexivity.
+    - destruct (run_sequential_spec all) as (k & _ & Hr & _). rewrite Hr. simpl. apply firstn_prefix.
+  Qed.
+
+  Lemma seq_incl_lemma rule (all : list A) : incl (s_result (run_sequential rule clk T all)) all.
+  Proof.
+    destruct (seq_prefix_lemma rule all) as (rest & E). intros x Hx. rewrite E. apply in_or_app. auto.
+  Qed.
+
+  (* flag <=> the loop was left through `break` <=> a genuine path is missing from the result *)
+  Lemma seq_flag_iff_cut_lemma (all : list A) :
+    let o := run_sequential SeqDeadlinePerPath clk T all in
+    (s_flag o = true <-> s_how o = SeqCut) /\
+    (s_flag o = true <-> s_result o <> all) /\
+    (s_flag o = true <-> exists p rest, all = s_result o ++ p :: rest) /\
+    (s_flag o = false <-> s_result o = all).
+  Proof.
+    cbv zeta. destruct (run_sequential_spec all) as (k & Hk & Hr & _ & _ & Hc). simpl in Hr.
+    destruct Hc as [(E & H1 & H2)|(E & H1 & H2 & _)]; rewrite H1, H2, Hr.
+    - subst k. rewrite firstn_all. repeat split; try discriminate; try congruence; auto.
+      intros (p & rest & Ep). assert (length all = length (all ++ p :: rest)) by (rewrite <- Ep; reflexivity).
+      rewrite app_length in H. simpl in H. lia.
+    - pose proof (firstn_short_neq k all E) as N. repeat split; auto; try congruence; try discriminate.
+      + intros _. pose proof (firstn_skipn k all) as S. destruct (skipn k all) as [|p rest] eqn:Es.
+        * assert (length (skipn k all) = 0%nat) by (rewrite Es; reflexivity). rewrite skipn_length in H. lia.
+        * exists p, rest. symmetry. exact S.
+  Qed.
+
+  (* where the cut happens: at the first reading beyond the deadline made on a yielded path *)
+  Lemma seq_cut_at_first_late_lemma (all : list A) (i : nat) :
+    (1 <= i <= length all)%nat -> late clk T i = true ->
+    (forall j, (1 <= j < i)%nat -> late clk T j = false) ->
+    let o := run_sequential SeqDeadlinePerPath clk T all in
+    s_how o = SeqCut /\ s_flag o = true /\ s_exit o = i /\ s_result o = firstn (i - 1) all.
+  Proof.
+    intros Hi L Hb. cbv zeta. destruct (run_sequential_spec all) as (k & Hk & Hr & He & Hl & Hc).
+    simpl in Hr, He, Hl, Hc.
+    assert (Ek : S k = i).
+    { destruct (Nat.lt_trichotomy (S k) i) as [Lt|[Eq|Gt]]; auto.
+      - exfalso. destruct Hc as [(E & _)|(_ & _ & _ & Lk)]; [lia|]. rewrite Hb in Lk by lia. discriminate.
+      - exfalso. rewrite Hl in L by lia. discriminate. }
+    destruct Hc as [(E & _)|(E & H1 & H2 & _)]; [lia|]. rewrite H1, H2, He, Hr, <- Ek.
+    repeat split; auto. f_equal. lia.
+  Qed.
+
+  (* complete and unflagged: untimed, or every path is yielded at a reading inside the deadline *)
+  Lemma seq_complete_lemma (all : list A) :
+    (T = -1 \/ forall i, (1 <= i <= length all)%nat -> clk i - clk 0%nat <= T) ->
+    let o := run_sequential SeqDeadlinePerPath clk T all in
+    s_how o = SeqExhausted /\ s_flag o = false /\ s_result o = all /\ s_exit o = S (length all).
+  Proof.
+    intros H. cbv zeta.
+    assert (NL : forall i, (1 <= i <= length all)%nat -> late clk T i = false).
+    { intros i Hi. unfold late. destruct H as [->|H]; [reflexivity|].
+      specialize (H i Hi). destruct (T <? clk i - clk 0%nat) eqn:E; [apply Z.ltb_lt in E; lia|]. apply andb_false_r. }
+    destruct (run_sequential_spec all) as (k & Hk & Hr & He & _ & Hc). simpl in Hr, He, Hc.
+    destruct Hc as [(E & H1 & H2)|(E & _ & _ & Lk)].
+    - subst k. rewrite firstn_all in Hr. auto.
+    - rewrite NL in Lk by lia. discriminate.
+  Qed.
+
+  (* "finishes in time" for a clock that does not run backwards: the LAST path is yielded inside the deadline *)
+  Lemma seq_in_time_lemma (all : list A) :
+    (forall i, clk i <= clk (S i)) -> clk (length all) - clk 0%nat <= T ->
+    let o := run_sequential SeqDeadlinePerPath clk T all in
+    s_how o = SeqExhausted /\ s_flag o = false /\ s_result o = all.
+  Proof.
+    intros Mono Hl. cbv zeta.
+    assert (M : forall j i, (i <= j)%nat -> clk i <= clk j).
+    { induction j as [|j IH]; intros i Hi.
+      - assert (i = 0%nat) by lia. subst. lia.
+      - destruct (Nat.eq_dec i (S j)) as [->|N]; [lia|]. specialize (IH i ltac:(lia)). specialize (Mono j). lia. }
+    destruct (seq_complete_lemma all) as (H1 & H2 & H3 & _).
+    - right. intros i Hi. specialize (M (length all) i ltac:(lia)). lia.
+    - auto.
+  Qed.
+
+  (* the loop is left at most one generator step after the deadline *)
+  Lemma seq_time_bounded_lemma (all : list A) dmax :
+    0 <= T -> StepsWithin clk dmax ->
+    clk (s_exit (run_sequential SeqDeadlinePerPath clk T all)) - clk 0%nat <= T + dmax.
+  Proof.
+    intros HT D. destruct (run_sequential_spec all) as (k & _ & _ & He & Hl & _). simpl in He, Hl.
+    rewrite He. specialize (D k). destruct k as [|k]; [lia|].
+    specialize (Hl (S k) ltac:(lia)). unfold late in Hl.
+    assert (N : (T =? -1) = false) by (apply Z.eqb_neq; lia). rewrite N in Hl. simpl in Hl.
+    apply Z.ltb_ge in Hl. lia.
+  Qed.
+
+  (* the shipped loop: complete, never flagged, left when the enumeration is exhausted -- whatever the clock says *)
+  Lemma seq_shipped_lemma (all : list A) :
+    run_sequential SeqIgnoresTimeout clk T all = @mkseq A SeqExhausted (S (length all)) false all.
+  Proof. unfold run_sequential. rewrite seq_iter_shipped by lia. reflexivity. Qed.
+End SequentialProofs.
